@@ -542,7 +542,7 @@ row('LIST.NEIGHBOR*IDS', ['C20'], takes=[('int', 3), ('float', 1)], touches=['in
     ('fired.no-result-for-invalid-topology', '(S0.int.len() >= 3 && S0.float.len() >= 1 && !%s) ==> S1.intvec == S0.intvec' % _some3),
     ('{C20,C10}unfired.intvec', '!(S0.int.len() >= 3 && S0.float.len() >= 1) ==> S1.intvec == S0.intvec')])
 FN_OVERLAYS['list::list_neighbor_ids'] = dict(attrs='#[verifier::loop_isolation(false)]\n', loops={0: '''
-            //bind R = let mut (\\w+) = vec!\\[\\];
+            //bind R = let mut (\\w+)(?:\\s*:[^=;]+)? = (?:vec!\\[\\]|Vec::new\\(\\)|Vec::with_capacity\\([^;]*\\));
             //bind NBV = if let Some\\((\\w+)\\) =\\s*Topology::find_neighbors
             invariant seq_i32(&$R).len() == $R@.len(), $R@ == $NBV.values@.subrange(0, ghost_iter.index@), ghost_iter.seq().len() == $NBV.values@.len(),
                 forall|k: int| 0 <= k < $NBV.values@.len() ==> *#[trigger] ghost_iter.seq()[k] == $NBV.values@[k],
@@ -557,7 +557,7 @@ for nm, st, kind, seqw in [('LIST.NEIGHBOR*BVALS', 'boolvec', 'bool', 'seq_bool'
         ('fired.no-result-for-invalid-topology', '(S0.int.len() >= 4 && S0.float.len() >= 1 && !%s) ==> S1.%s == S0.%s' % (_some4, st, st)),
         ('{C20,C10}unfired.%s' % st, '!(S0.int.len() >= 4 && S0.float.len() >= 1) ==> S1.%s == S0.%s' % (st, st))])
     FN_OVERLAYS['list::list_neighbor_%ss' % {'bool': 'bval', 'int': 'ival', 'float': 'fval'}[kind]] = dict(loops={0: '''
-            //bind R = let mut (\\w+) = vec!\\[\\];
+            //bind R = let mut (\\w+)(?:\\s*:[^=;]+)? = (?:vec!\\[\\]|Vec::new\\(\\)|Vec::with_capacity\\([^;]*\\));
             //bind NBV = if let Some\\((\\w+)\\) =\\s*Topology::find_neighbors
             //bind POS = let (\\w+) = topology\\[3\\] as usize;
             invariant %s ghost_iter.seq().len() == $NBV.values@.len(), ghost_iter.index@ <= $NBV.values@.len(),
@@ -814,7 +814,7 @@ FN_OVERLAYS['graph::graph_node_neighbors'] = dict(attrs='#[verifier::loop_isolat
                             }
 '''})
 FN_OVERLAYS['graph::graph_node_predecessors'] = dict(attrs='#[verifier::loop_isolation(false)]\n', loops={0: '''
-            //bind R = let mut (\\w+) = vec!\\[\\];
+            //bind R = let mut (\\w+)(?:\\s*:[^=;]+)? = (?:vec!\\[\\]|Vec::new\\(\\)|Vec::with_capacity\\([^;]*\\));
             //bind IE = if let Some\\((\\w+)\\) = graph\\.edges\\.get\\(
             //bind ST = if let Some\\((\\w+)\\) = push_state\\.int_vector_stack\\.pop\\(\\)
             invariant seq_i32(&$R).len() == $R@.len(), ghost_iter.seq().len() == $IE@.len(),
@@ -857,7 +857,7 @@ for _p, _stk in [('vector::int_vector_sum', 'int_vector_stack'), ('vector::int_v
 ''' % _stk})
 FN_OVERLAYS['vector::int_vector_bool_index'] = dict(loops={0: '''
             //bind V = if let Some\\((\\w+)\\) = push_state\\.bool_vector_stack\\.pop\\(\\)
-            //bind R = let mut (\\w+) = vec!\\[\\];
+            //bind R = let mut (\\w+)(?:\\s*:[^=;]+)? = (?:vec!\\[\\]|Vec::new\\(\\)|Vec::with_capacity\\([^;]*\\));
             invariant seq_i32(&$R).len() == $R@.len(), $V.values@.len() < 0x7fff_ffff,
                 $R@ == crate::push::vector::true_idx($V.values@, ghost_iter.index@ as nat),
 '''})
@@ -1126,7 +1126,7 @@ row('FLOATVECTOR.SINE', ['C09', 'C15'], takes=[('float', 3), ('int', 1)], pushes
     ('fired.value.floatvec.0', '(S0.float.len() >= 3 && S0.int.len() >= 1) ==> top(S1.floatvec, 0).values@ =~= '
      'Seq::new((if %s > 0 { %s as nat } else { 0nat }), |i: int| sine_elem(%s, %s, %s, i as usize))' % (_n, _n, _A, _x, _phi)),
     ('{C15}bound.alloc', '(S0.float.len() >= 3 && S0.int.len() >= 1) ==> top(S1.floatvec, 0).values@.len() <= 5')])
-FN_OVERLAYS['vector::float_vector_sine'] = dict(loops={0: '''            //bind V = let mut (\\w+) = vec!\\[\\];
+FN_OVERLAYS['vector::float_vector_sine'] = dict(loops={0: '''            //bind V = let mut (\\w+)(?:\\s*:[^=;]+)? = (?:vec!\\[\\]|Vec::new\\(\\)|Vec::with_capacity\\([^;]*\\));
             //bind P = if let Some\\((\\w+)\\) = push_state\\.float_stack\\.pop_vec\\(3\\)
             invariant
                 $P@.len() == 3, seq_f32(&$V).len() == ghost_iter.index@, $V@.len() == ghost_iter.index@,
